@@ -38,7 +38,8 @@ def cases(tier, seed):
     nbig = 40 if tier == "quick" else 800
     tables = list(gen.REPRESENTATIVE_TABLES.values())
     for k in range(nbig):
-        table = tables[k % len(tables)]
+        F_k = gen.feat(101, k)          # independent feature choices per case (gen.feat)
+        table = tables[F_k("len_tables@40", len(tables))]
         n = len(table)
         mode = rng.choice(["symm", "square"])
         px = gen.random_store(rng, n, mode, maxval=3)
@@ -47,15 +48,16 @@ def cases(tier, seed):
         rng.shuffle(wins)
         yield "rq.balanced", {"n": n, "mode": mode, "px": px, "table": table, "wexp": wexp,
                               "wname": rng.choice(NAMES), "divisive": rng.choice(["None", "True", "False"]),
-                              "as_true": False, "chunk": rng.choice([1, 3, 10 ** 7]), "open": ["handle", "path", "uri"][k % 3],
-                              "wins": wins[:40], **({"at": "/a/b"} if k % 3 == 1 else {}), "prior": k % 4 == 1}
+                              "as_true": False, "chunk": rng.choice([1, 3, 10 ** 7]), "open": ["handle", "path", "uri"][F_k("m3@49", 3)],
+                              "wins": wins[:40], **({"at": "/a/b"} if F_k("m3@50", 3) == 1 else {}), "prior": F_k("m4@50", 4) == 1}
     # missing weight column must be an error, for every form; also balance=True without a 'weight' column
     for k in range(6 if tier == "quick" else 40):
+        F_k = gen.feat(102, k)          # independent feature choices per case (gen.feat)
         mode = rng.choice(["symm", "square"])
         px = rng.choice(stores[mode])
         for name, have in (("nosuch", True), ("weight", False), ("KR", True), ("nosuch", False)):
             yield "rq.missing", {"n": 3, "mode": mode, "px": px, "wname": name, "have_weight": have,
-                                 "open": "handle", "wins": rng.sample(wins3, 6), **({"at": "/a/b"} if k % 2 else {})}
+                                 "open": "handle", "wins": rng.sample(wins3, 6), **({"at": "/a/b"} if F_k("m2@57", 2) else {})}
 
 
 def run(tier, seed, only_case=None):
